@@ -31,6 +31,7 @@ namespace NV.C08
 
 inductive Base where
   | bp (k : Nat)      -- "c08/b<k>"   (file exists, compiles)
+  | ih (k : Nat)      -- "c08/i<k>"   (file exists: `inherit "/c08/b<k>";`)
   | master            -- "c08/master"
   | simul             -- "simul_efun"
   | nofile            -- "c08/nx"     (no such file: load returns 0)
@@ -44,6 +45,7 @@ structure Name where
 
 def Base.str : Base → String
   | .bp k => s!"c08/b{k}"
+  | .ih k => s!"c08/i{k}"
   | .master => "c08/master"
   | .simul => "simul_efun"
   | .nofile => "c08/nx"
@@ -233,6 +235,15 @@ def unsentDestruct (c : Core) (ob : Nat) : Core :=
     let sibs := (c.objs s).contains
     mapSent c fun u o => if (u = s ∨ u ∈ sibs) ∧ o.ec then rmSent ob o.sent else o.sent
 
+/-- some sentence list got shorter: remove_sent() removed a sentence and set `illegal_sentence_action = 2` -/
+def sentChanged (c c' : Core) : Bool :=
+  (List.range c.n).any (fun i => (c.objs i).sent.length != (c'.objs i).sent.length)
+
+/-- remove the first sentence satisfying `p` -/
+def eraseFirst (p : String × Nat → Bool) : List (String × Nat) → List (String × Nat)
+  | [] => []
+  | t :: l => if p t then l else t :: eraseFirst p l
+
 /-- add_action: new sentence at the head of the command giver's list -/
 def addSent (c : Core) (g : Nat) (verb : String) (ob : Nat) : Core :=
   mapSent c fun u o => if u = g then (verb, ob) :: o.sent else o.sent
@@ -301,6 +312,8 @@ inductive Op where
   | rd                       -- read that variable back
   | err                      -- error("boom")
   | mvarg                    -- inside move_or_destruct(dest): if (dest) move_object(dest)
+  | ret0                     -- the running action function will return 0 (`act_ret = 0` in the executing object)
+  | ra (a : Nat) (verb : String)  -- a: remove_action("act", verb)
   | obf                      -- objects("ofilt"): obj_list walked with a filter function of the executing object
   | ct (o : Op)              -- catch (o)
   | nop
@@ -329,6 +342,9 @@ structure World where
   catching : Nat := 0                     -- number of catch() frames around the running code (innermost error context
                                           -- is a catch frame iff > 0)
   res : List Nat := []                    -- the array returned by the last objects(filter) (result register)
+  isa : Nat := 0                          -- illegal_sentence_action (1: remove_action ran, 2: remove_sent removed something)
+  ret0 : List Nat := []                   -- objects whose LPC variable `act_ret` is 0
+  ldepth : Int := 0                       -- num_objects_this_thread: load_object() calls in progress
   out : List String := []                 -- canonical trace, newest first
 
 def emit (w : World) (s : String) : World := { w with out := s :: w.out }
@@ -402,7 +418,7 @@ def hbOffU (w : World) : World := if w.catching = 0 then hbOff w else w
     restrict_destruct - the receiving context puts its saved value back (top level: 0; catch: see `.ct`) - and, for an
     uncaught error, switches the running heart beat off (`hbOff`) -/
 def raise (w : World) (msg : String) : R :=
-  { w := hbOffU (emit { w with restrict := none } (if w.catching = 0 then s!"err {msg}" else s!"caught {msg}")),
+  { w := hbOffU (emit { w with restrict := none, ldepth := 0 } (if w.catching = 0 then s!"err {msg}" else s!"caught {msg}")),
     out := .err }
 
 def crashR (w : World) (what : String) : R := { w := emit w s!"crash {what}", out := .crash }
@@ -419,7 +435,8 @@ def restricted (w : World) (ob : Nat) : Bool :=
 inductive Task where
   | ops (self : Nat) (arg : Option Nat) (l : List Op)     -- run a script in object `self`
   | hook (x : Nat) (k : Hook) (arg : Option Nat)           -- apply(create|init|move_or_destruct, x); arg = this_player()/dest
-  | load (b : Base)                                        -- find_or_load_object
+  | load (b : Base) (strict : Bool)                        -- `lookup_object_hash (name)`, and on a miss `load_object (name)`;
+                                                           -- strict = find_or_load_object (a destructed result is 0)
   | clone (b : Base)                                       -- clone_object
   | move (item dest : Nat)                                 -- f_move_object (object argument) + move_object
   | moveStr (item : Nat) (b : Base)                        -- f_move_object with a string argument
@@ -428,6 +445,7 @@ inductive Task where
   | command (a : Nat) (verb : String)                      -- process_command(verb, a) + user_parser
   | destruct (ob : Nat)                                    -- destruct_object
   | dloop (ob : Nat) (sup0 : Option Nat) (saveR : Option Nat)  -- its `while (ob->contains)` loop
+  | cmdloop (a : Nat) (verb : String) (rest : List (String × Nat)) (saveIsa : Nat)  -- user_parser's loop over the sentences
   | objloop (self : Nat) (rest acc : List Nat)             -- f_objects: the filter pass over the collected objects
 
 def errInside := NV.Gen.C08.errInsideSrc
@@ -443,6 +461,13 @@ def errFis (b : Base) : String :=
   "Bad argument 1 to first_inventory(), Expected: string or object Got: \"/" ++ b.str ++ "\"."
 def errNoDest := NV.Gen.C08.errNoDestSrc
 def errEfunCb := NV.Gen.C08.errEfunCbSrc
+def errIsa1 := NV.Gen.C08.errIsa1Src
+def errIsa2 := NV.Gen.C08.errIsa2Src
+/-- `MaxInheritDepth` of the harness configuration -/
+abbrev inheritChainSize : Nat := NV.Gen.C08.inheritChainSize
+def errChain (b : Base) : String :=
+  NV.Gen.C08.errChainSrc ++ s!"{inheritChainSize} when trying to load '{b.str}'."
+def errNoInherit (k : Nat) : String := NV.Gen.C08.errNoInheritSrc ++ s!"{(Base.bp k).str}' does not exist!"
 
 /-- the interpreter; every call decreases the fuel -/
 def exec (sc : Scripts) : Nat → Task → World → R
@@ -454,15 +479,15 @@ def exec (sc : Scripts) : Nat → Task → World → R
       let r : R :=
         match op with
         | .ld b =>
-          (exec sc f (.load b) w).andThen fun w v =>
-            -- do_op: `t = typeof (load_object (p)); ob = find_object (p);` - typeof sees the value the efun left on
-            -- the stack, the object itself is fetched by a second lookup
+          (exec sc f (.load b true) w).andThen fun w v =>
+            -- do_op: `t = typeof (ob2 = load_object (p)); ob = find_object (p);` - typeof sees the value the efun left
+            -- on the stack, the object is fetched by a second lookup and both results are reported
             let nm : Name := { base := b, num := none }
             if anyFreed w.c (w.c.ot (hashN nm)) then crashR w "find_obj_n"
             else
               let r := lookupC w.c nm
               let w := { w with c := r.1 }
-              { w := emit w s!"r ld {b.str} {roid w.c self (r.2.bind (readRef w.c))} {if v.isSome then 1 else 0}" }
+              { w := emit w s!"r ld {b.str} {roid w.c self (r.2.bind (readRef w.c))} {if v.isSome then 1 else 0} {roid w.c self (v.bind (readRef w.c))}" }
         | .cl b =>
           (exec sc f (.clone b) w).andThen fun w v =>
             { w := emit w s!"r cl {b.str} {roid w.c self (v.bind (readRef w.c))}" }
@@ -495,7 +520,7 @@ def exec (sc : Scripts) : Nat → Task → World → R
             (exec sc f (.present e t (w.c.objs e).contains.head?) w).andThen fun w v =>
               { w := emit w s!"r pr {oid e} {oid t} {roid w.c self (v.bind (readRef w.c))}" }
         | .fis b =>
-          (exec sc f (.load b) w).andThen fun w v =>
+          (exec sc f (.load b true) w).andThen fun w v =>
             match v with
             | none => raise w (errFis b)
             | some d => { w := emit w s!"r fis {b.str} {roid w.c self ((w.c.objs d).contains.head?.bind (readRef w.c))}" }
@@ -566,6 +591,19 @@ def exec (sc : Scripts) : Nat → Task → World → R
             (exec sc f (.move self d) (emit w s!"mvb {oid self} {oid d}")).andThen fun w _ =>
               { w := emit w s!"r mv {oid self} {oid d} ok" }
           | none => { w := emit w s!"r mvarg {oid self} 0" }
+        | .ret0 => { w := { w with ret0 := self :: w.ret0.filter (· ≠ self) } }
+        | .ra a verb =>
+          -- remove_action: `ob = command_giver ? command_giver : current_object`; first sentence of ob defined by the
+          -- caller with that function and verb; `illegal_sentence_action = 1`
+          match readRef w.c a with
+          | none => { w := emit w s!"r ra {oid a} {verb} !gone" }
+          | some a =>
+            let g := w.cg.getD a
+            if ¬ (g < w.c.n) ∨ (w.c.objs g).freed then crashR w "remove_action: command_giver"
+            else if (w.c.objs g).sent.any (fun t => t.2 == a && t.1 == verb) then
+              { w := emit { w with c := mapSent w.c (fun u o => if u = g then eraseFirst (fun t => t.2 == a && t.1 == verb) o.sent else o.sent),
+                                   isa := 1 } s!"r ra {oid a} {verb} 1" }
+            else { w := emit w s!"r ra {oid a} {verb} 0" }
         | .obf =>
           -- f_objects with a filter (since the `fix:` commit): obj_list is collected first - no LPC code runs -, then
           -- the filter is asked about every collected object that is still alive, then the accepted ones that were
@@ -580,7 +618,7 @@ def exec (sc : Scripts) : Nat → Task → World → R
           let r := exec sc f (.ops self arg [o]) (emit { w with catching := w.catching + 1 } s!"ctb {oid self}")
           match r.out with
           | .ok => { w := emit { r.w with catching := w.catching } s!"r ct {oid self} 0" }
-          | .err => { w := emit { r.w with catching := w.catching, cg := w.cg, restrict := w.restrict } s!"r ct {oid self} 1" }
+          | .err => { w := emit { r.w with catching := w.catching, cg := w.cg, restrict := w.restrict, ldepth := w.ldepth } s!"r ct {oid self} 1" }
           | _ => r
         | .nop => { w := w }
       r.andThen fun w _ =>
@@ -597,13 +635,20 @@ def exec (sc : Scripts) : Nat → Task → World → R
         let w := match k, arg with
           | .init, some y => { w with initBad := w.initBad || !adjacent w.c x y }
           | _, _ => w
+        -- `act_ret = 1;` at the start of the action function
+        let w := match k with
+          | .act => { w with ret0 := w.ret0.filter (· ≠ x) }
+          | _ => w
         let w := match k with
           | .create => emit w s!"new {oid x} {(w.c.objs x).name.str}"
           | _ => emit w s!"hb {oid x} {k.str} {ooid arg}"
         -- only move_or_destruct(dest) hands its argument to the script
         (exec sc f (.ops x (if k = .mod then arg else none) (sc x k n)) w).andThen fun w _ =>
           { w := emit w s!"he {oid x} {k.str}" }
-    | .load b =>
+    | .load b strict =>
+      -- `if (!(ob = lookup_object_hash (name))) ob = load_object (name, 0);` - the three sites of this pattern are
+      -- find_or_load_object (strict: a destructed result is 0), the load of an inherited program and the re-lookup
+      -- after it (both inside load_object)
       let nm : Name := { base := b, num := none }
       if anyFreed w.c (w.c.ot (hashN nm)) then crashR w "find_obj_n"
       else
@@ -612,20 +657,53 @@ def exec (sc : Scripts) : Nat → Task → World → R
         match r.2 with
         | some i => { w := w, val := some i }
         | none =>
-          match b with
-          | .nofile => { w := w, val := none }
-          | .badfile => raise w errBadFile
-          | _ =>
-            let saveCg := w.cg
-            let a := alloc w.c nm false
-            let w := { w with c := a.1 }
-            (exec sc f (.hook a.2 .create none) w).andThen fun w _ =>
-              let w := { w with cg := saveCg }
+          -- load_object (name): `if (++num_objects_this_thread > __INHERIT_CHAIN_SIZE__) error`
+          let saveCg := w.cg
+          let w := { w with ldepth := w.ldepth + 1 }
+          -- (a C `int`: clone_object clears it in the middle of nested loads, the loads then count it below zero)
+          if w.ldepth > (inheritChainSize : Int) then raise w (errChain b)
+          else
+            -- the program: either a final result (no file, compile error, the inherit detour) or "compiled in state w"
+            let ph : R ⊕ World :=
+              match b with
+              | .nofile => .inl { w := { w with ldepth := w.ldepth - 1 }, val := none }
+              | .badfile => .inl (raise w errBadFile)
+              | .ih k =>
+                -- grammar.y `inherit`: find_object_by_name (inherited file); not loaded: inherit_file is set, the
+                -- compilation is abandoned, the inherited object is loaded (its create() runs), then - "it is possible
+                -- that when we loaded the inherited object, it loaded this object from it's create function" - the
+                -- name is looked up AGAIN and only on a miss the object is loaded again
+                let inh : Name := { base := .bp k, num := none }
+                if anyFreed w.c (w.c.ot (hashN inh)) then .inl (crashR w "find_obj_n")
+                else
+                  let rb := lookupC w.c inh
+                  let w := { w with c := rb.1 }
+                  match rb.2 with
+                  | some _ => .inr w
+                  | none =>
+                    .inl ((exec sc f (.load (.bp k) false) w).andThen fun w v =>
+                      match v with
+                      | none => raise w (errNoInherit k)
+                      | some _ =>
+                        (exec sc f (.load b false) w).andThen fun w v =>
+                          { w := { w with ldepth := w.ldepth - 1 }, val := v })
+              | _ => .inr w
+            let body : R :=
+              match ph with
+              | .inl r => r
+              | .inr w =>
+                let a := alloc w.c nm false
+                (exec sc f (.hook a.2 .create none) { w with c := a.1 }).andThen fun w _ =>
+                  { w := { w with cg := saveCg, ldepth := w.ldepth - 1 }, val := some a.2 }
+            body.andThen fun w v =>
               -- find_or_load_object: `if (!ob || (ob->flags & O_DESTRUCTED)) return 0`
-              if (w.c.objs a.2).destructed then { w := w, val := none } else { w := w, val := some a.2 }
+              match v with
+              | none => { w := w, val := none }
+              | some ob => if strict ∧ (w.c.objs ob).destructed then { w := w, val := none } else { w := w, val := some ob }
     | .clone b =>
       let saveCg := w.cg
-      (exec sc f (.load b) w).andThen fun w v =>
+      -- `num_objects_this_thread = 0;` at the start of clone_object
+      (exec sc f (.load b true) { w with ldepth := 0 }).andThen fun w v =>
         match v with
         | none => { w := w, val := none }
         | some ob =>
@@ -657,7 +735,8 @@ def exec (sc : Scripts) : Nat → Task → World → R
             if anyFreed w.c oldInv then crashR w "move_object unlink"
             else
               let saveCg := w.cg
-              let w0 := { w with c := relink (unsentMove w.c item) item dest }
+              let w0 := { w with c := relink (unsentMove w.c item) item dest,
+                                 isa := if sentChanged w.c (unsentMove w.c item) then 2 else w.isa }
               let r : R :=
                 if (w0.c.objs item).ec then exec sc f (.hook dest .init (some item)) { w0 with cg := some item }
                 else { w := w0 }
@@ -668,7 +747,7 @@ def exec (sc : Scripts) : Nat → Task → World → R
     | .moveStr item b =>
       -- f_move_object: the destination is resolved (and loaded: its create() runs) FIRST, then current_object is
       -- tested for O_DESTRUCTED (the first thing `.move` does), then move_object()
-      (exec sc f (.load b) w).andThen fun w v =>
+      (exec sc f (.load b true) w).andThen fun w v =>
         match v with
         | none => raise w errNoDest
         | some d => exec sc f (.move item d) w
@@ -723,13 +802,29 @@ def exec (sc : Scripts) : Nat → Task → World → R
         let saveCg := w.cg
         if ¬ (w.c.objs a).ec then { w := w, val := none }
         else
-          -- sentences hold a reference to their object: the structure is never released while listed
-          -- (a sentence only ever holds an allocated object: add_action stores current_object)
-          match (w.c.objs a).sent.find? (fun t => decide (t.2 < w.c.n) && !(w.c.objs t.2).destructed && t.1 == verb) with
-          | none => { w := w, val := none }
-          | some t =>
-            (exec sc f (.hook t.2 .act (some a)) { w with cg := some a }).andThen fun w _ =>
-              { w := { w with cg := saveCg }, val := some a }
+          -- process_command: command_giver = a; user_parser: `illegal_sentence_action` saved and cleared, the loop
+          -- over the sentences, restored by the exits of the loop; command_for_object restores command_giver
+          (exec sc f (.cmdloop a verb (w.c.objs a).sent w.isa) { w with cg := some a, isa := 0 }).andThen fun w v =>
+            { w := { w with cg := saveCg }, val := v }
+    | .cmdloop a verb rest saveIsa =>
+      match rest with
+      | [] => { w := { w with isa := saveIsa }, val := none }     -- notify_no_command ()
+      | t :: rest =>
+        -- sentences hold a reference to their object: the structure is never released while listed
+        if ¬ (decide (t.2 < w.c.n) && !(w.c.objs t.2).destructed && t.1 == verb) then exec sc f (.cmdloop a verb rest saveIsa) w
+        else
+          (exec sc f (.hook t.2 .act (some a)) w).andThen fun w _ =>
+            -- `command_giver = save_command_giver;`
+            let w := { w with cg := some a }
+            let ret := !(w.ret0.contains t.2)
+            -- fix: the action destructed the command giver (its sentence list is freed): stop parsing
+            if ¬ (a < w.c.n) ∨ (w.c.objs a).destructed then
+              { w := { w with isa := saveIsa }, val := if ret then some a else none }
+            else if ret then { w := { w with isa := if w.isa = 0 then saveIsa else w.isa }, val := some a }
+            else if w.isa = 1 then raise w errIsa1
+            else if w.isa = 2 then raise w errIsa2
+            -- no sentence was removed meanwhile: `s->next` is the rest of the list as it was
+            else exec sc f (.cmdloop a verb rest saveIsa) w
     | .destruct ob =>
       if restricted w ob then raise w errRestrict
       else if ¬ (ob < w.c.n) ∨ (w.c.objs ob).freed then crashR w "destruct_object: not an object"
@@ -751,7 +846,8 @@ def exec (sc : Scripts) : Nat → Task → World → R
         else
           -- (set_heart_beat(ob, 0) runs just before O_DESTRUCTED is set)
           let w := hbRemove w ob
-          { w := { w with c := finishDestruct (unsentDestruct w.c ob) ob } }
+          { w := { w with c := finishDestruct (unsentDestruct w.c ob) ob,
+                          isa := if sentChanged w.c (unsentDestruct w.c ob) then 2 else w.isa } }
       | otmp :: _ =>
         if ¬ (otmp < w.c.n) ∨ (w.c.objs otmp).freed then crashR w "destruct_object contains"
         else
@@ -875,7 +971,7 @@ def tick (sc : Scripts) (w : World) : World :=
     match r.out with
     | .ok => { r.w with hbIdx := 0, hbTodo := 0, curHb := none }
     -- an error abandons the round (backend()'s recovery point); restore_context() restores command_giver
-    | .err => emit { r.w with cg := w.cg } "r tick !err"
+    | .err => emit { r.w with cg := w.cg, ldepth := w.ldepth } "r tick !err"
     | _ => r.w
 
 inductive Cmd where
@@ -894,7 +990,7 @@ def stepCmd (sc : Scripts) (w : World) : Cmd → World
     match r.out with
     | .ok => r.w
     -- restore_context() puts command_giver back to its value at save_context()
-    | .err => emit { r.w with cg := w.cg } "r top !err"
+    | .err => emit { r.w with cg := w.cg, ldepth := w.ldepth } "r top !err"
     | _ => r.w
   | .tick => tick sc w
   | .snap => { w with out := (snapLines w.c).reverse ++ w.out }
